@@ -48,6 +48,9 @@ type ar struct {
 	containsAtoms map[string]string
 	// existence loops `for _, x := range S { if <cond> { return true } }`: "S|cond" (x renamed to _x) -> lean Bool
 	existsAtoms map[string]string
+	// find-first loops `for i, x := range S { if cond(x) { …always returns… } }`: "S|cond" (x written _x) -> lean Bool "some element
+	// satisfies cond"; the body then runs once, for the first such element
+	findAtoms map[string]string
 	// Lean lines emitted in front of the lets of a multi-valued call (callAtoms), e.g. to record what the call was given
 	callPre map[string]string
 	// expression statements with a meaning: source -> Lean lines (lets)
@@ -504,6 +507,16 @@ func (a *ar) block(ss []ast.Stmt, en env, ind string) string {
 		}
 		return a.block(rest, en, ind)
 	case *ast.RangeStmt:
+		// find-first loop
+		if a.findAtoms != nil && v.Value != nil && len(v.Body.List) == 1 {
+			if is, ok := v.Body.List[0].(*ast.IfStmt); ok && is.Init == nil && is.Else == nil {
+				x := srcOf(v.Value)
+				key := srcOf(v.X) + "|" + strings.ReplaceAll(srcOf(is.Cond), x+".", "_x.")
+				if at, ok := a.findAtoms[key]; ok {
+					return ind + "if " + at + " = true then\n" + a.block(is.Body.List, en.copy(), ind+"  ") + "\n" + ind + "else\n" + a.block(rest, en.copy(), ind+"  ")
+				}
+			}
+		}
 		// a loop read as an existence test as a whole (its full text is the key: nested iteration that can only `continue` or
 		// `return true`)
 		if at, ok := a.existsAtoms["loop|"+srcOfNode(v)]; ok {
